@@ -278,10 +278,24 @@ def check_binned(v):
         for batch in calls:
             bg.count(LocationEntry([names[e[0] - 1] for e in batch], np.array([e[1] for e in batch], dtype=int)))
         d = bg.count_dict
-        return [[int(x) for x in d[nm].tolist()] for nm in names], [[int(x) for x in bg[nm].tolist()] for nm in names]
+        # the same positions counted from a VCF file holding all the calls (count_file reads it in chunks; 1-based positions in the file)
+        import tempfile
+        with tempfile.TemporaryDirectory() as td:
+            pth = os.path.join(td, "p.vcf")
+            with open(pth, "w") as fh:
+                fh.write("##fileformat=VCFv4.2\n#CHROM\tPOS\tID\tREF\tALT\tQUAL\tFILTER\tINFO\n")
+                for batch in calls:
+                    for e in batch:
+                        fh.write("%s\t%d\t.\tA\tC\t.\t.\t.\n" % (names[e[0] - 1], e[1] + 1))
+            bf = BinnedGenome(g.get_genome_context(), bin_size=B)
+            if any(calls):
+                bf.count_file(pth)
+            df = bf.count_dict
+            from_file = [[int(x) for x in df[nm].tolist()] for nm in names]
+        return [[int(x) for x in d[nm].tolist()] for nm in names], [[int(x) for x in bg[nm].tolist()] for nm in names], from_file
     o = outcome(run_)
     bad = []
-    if o != ("ok", (v["counts"], v["counts"])):
+    if o != ("ok", (v["counts"], v["counts"], v["counts"])):
         bad.append({"what": "BinnedGenome counts differ from the number of positions per contig and bin", "tags": {"op": "BinnedGenome.count", "boundary": False, "ncalls": len(calls)},
                     "vector": v, "expected": v["counts"], "observed": o})
     multi = len(calls) > 1 or any(len(b) > 1 for b in calls)
